@@ -38,8 +38,9 @@ pub trait Scenario: Sync + Send {
     fn sweep_len(&self, tier: Tier) -> u64;
     /// Number of random runs for the tier.
     fn random_runs(&self, tier: Tier) -> u64;
-    /// Executes one run. Pure function of (kind, tape contents, code in /repo).
-    fn run(&self, kind: RunKind, tape: Tape, log: bool) -> (RunOut, Tape);
+    /// Executes one run. Pure function of (kind, tier, tape contents, code in
+    /// /repo). The tier only widens bounds (sizes, counts); it never changes an oracle.
+    fn run(&self, kind: RunKind, tier: Tier, tape: Tape, log: bool) -> (RunOut, Tape);
     /// How cases are generated and what counts as non-trivial / distinct.
     fn rule(&self) -> &'static str;
     /// (components running real code, components that are stubs)
